@@ -63,17 +63,10 @@ theorem documented_keys :
   intro b
   exact ⟨branchOf b, findBranch_mdType b, branch_specBackend b⟩
 
-/-- **C06.whitelist_keys_read_partial** — every key a branch accepts is a key it looks at, except
-`element_pointer` (defect exclusion, see the counterexample below).
-Full statement: `∀ br ∈ Gen.mdBranches, ∀ k ∈ br.whitelist, k = "metadata_type" ∨ k ∈ br.readKeys`. -/
-theorem whitelist_keys_read_partial :
-    ∀ br ∈ Gen.mdBranches, ∀ k ∈ br.whitelist, k ≠ t!"element_pointer" → k = t!"metadata_type" ∨ k ∈ br.readKeys := by
-  decide
-
-/-- **C06.whitelist_keys_read_counterexample** — both CMS branches accept `element_pointer` and
-never look at it. -/
-theorem whitelist_keys_read_counterexample :
-    ∃ br ∈ Gen.mdBranches, t!"element_pointer" ∈ br.whitelist ∧ t!"element_pointer" ∉ br.readKeys := by
+/-- **C06.whitelist_keys_read** — every key a branch accepts is a key it looks at (nothing is
+accepted and silently ignored). -/
+theorem whitelist_keys_read :
+    ∀ br ∈ Gen.mdBranches, ∀ k ∈ br.whitelist, k = t!"metadata_type" ∨ k ∈ br.readKeys := by
   decide
 
 /-! ## the bank reaches the retrieval, and only the retrieval -/
@@ -199,22 +192,55 @@ theorem validate_cms_singleton_counterexample :
     (t!"container_type", .str t!"reco::Foo"), (t!"contains_collection", .bool false)]⟩, by decide, by decide, rfl⟩
 
 /-- **C06.validate_declares** — an accepted declaration declares what it says: name, headers,
-container type, element type (or none), libraries, and — if `element_pointer` is absent or names
-the backend's default kind — the element kind. -/
-theorem validate_declares (b : Backend) (md : Md) (c : CollSpec) (hty : md.mdType = b.mdType) (h : validate md = .ok c)
-    (hk : KindDefault b md) : declOf c = intended b md ∧ c.backend = b.execName := by
+container type, element type (or none), libraries and the element kind (ATLAS: pointers; CMS:
+pointers iff `element_pointer` is true). -/
+theorem validate_declares (b : Backend) (md : Md) (c : CollSpec) (hty : md.mdType = b.mdType) (h : validate md = .ok c) :
+    declOf c = intended b md ∧ c.backend = b.execName := by
   rw [validate_of_mdType b md hty] at h
   obtain ⟨_, h2, _, h4⟩ := validateWith_sound b md c hty h
-  exact ⟨h4 hk, h2⟩
+  exact ⟨h4, h2⟩
 
-/-- **C06.element_pointer_counterexample** — `element_pointer: True` is accepted on CMS and
-ignored: the specification built says "elements are values". -/
-theorem element_pointer_counterexample :
-    ∃ (md : Md) (c : CollSpec), ValidMd .cmsAod md ∧ validate md = .ok c ∧
-      (intended .cmsAod md).elemPtr = true ∧ (declOf c).elemPtr = false := by
-  refine ⟨⟨Backend.mdType .cmsAod, [(t!"name", .str t!"Foo"), (t!"include_files", .strs [t!"Foo.h"]),
-    (t!"container_type", .str t!"reco::FooCollection"), (t!"element_type", .str t!"reco::Foo"),
-    (t!"contains_collection", .bool true), (t!"element_pointer", .bool true)]⟩, _, by decide, rfl, by decide, by decide⟩
+/-- **C06.element_pointer_honoured** — on both CMS backends the element kind of an accepted
+declaration is exactly what `element_pointer` says (absent = values). -/
+theorem element_pointer_honoured (b : Backend) (hb : b ≠ .atlas) (md : Md) (c : CollSpec) (hty : md.mdType = b.mdType)
+    (h : validate md = .ok c) :
+    (declOf c).elemPtr = (match md.get? t!"element_pointer" with
+      | some v => v.truthy
+      | none => false) := by
+  have hd := (validate_declares b md c hty h).1
+  rw [validate_of_mdType b md hty] at h
+  have hv := (validateWith_sound b md c hty h).1
+  have hfl : md.flag = true := by
+    have hcms : md.flag = true ∨ md.flag = false := by cases md.flag <;> simp
+    rcases hcms with h1 | h1
+    · exact h1
+    · -- a CMS declaration is only accepted with an element type, hence with the flag set
+      have : (declOf c).element = (intended b md).element := by rw [hd]
+      obtain ⟨_, _, ci, ct, et, libs, name, incs, h3, _, _, _, rfl⟩ := validateWith_ok h
+      cases b with
+      | atlas => exact absurd rfl hb
+      | cmsAod =>
+        obtain ⟨cc, ciC, hbld, _⟩ := branch_cmsAod
+        unfold containerStage at h3; rw [hbld] at h3; simp only [] at h3
+        cases hcs : collStage md cc with
+        | error e0 => rw [hcs] at h3; simp at h3
+        | ok r0 =>
+          obtain ⟨_, _, et', e, _, g2, _⟩ := collStage_ok hcs
+          exact hv.2.2.2.2 (has_of_get? g2)
+      | cmsMiniaod =>
+        obtain ⟨cc, ciC, hbld, _⟩ := branch_cmsMiniaod
+        unfold containerStage at h3; rw [hbld] at h3; simp only [] at h3
+        cases hcs : collStage md cc with
+        | error e0 => rw [hcs] at h3; simp at h3
+        | ok r0 =>
+          obtain ⟨_, _, et', e, _, g2, _⟩ := collStage_ok hcs
+          exact hv.2.2.2.2 (has_of_get? g2)
+  rw [hd]
+  simp only [intended, hfl, Bool.true_and]
+  cases b with
+  | atlas => exact absurd rfl hb
+  | cmsAod => cases md.get? t!"element_pointer" <;> rfl
+  | cmsMiniaod => cases md.get? t!"element_pointer" <;> rfl
 
 /-- **C06.backend_refused** — whatever else the query says, one declaration for another backend
 makes the executor refuse the job. -/
@@ -303,18 +329,17 @@ distinct, declared once and initialised once with their use's bank; headers and 
 the union of what the used collections need, once each in order of first use.
 Hypotheses (all decidable, all used as generator filters):
  * `WellTyped`  — values have the documented Python types (modelling domain);
- * `KindDefault`, `CmsIsCollection` (asked of this backend's declarations only), `TypeClean` — defect
-   exclusions (three listed findings, counterexample theorems above and below);
+ * `CmsIsCollection` (asked of this backend's declarations only), `TypeClean` — defect exclusions
+   (two listed findings, counterexample theorems above);
  * `NameClean`  — no collection name ends in a digit (`unique_name` is `name ++ index`, which is
    only injective for such names; C02 owns that finding).
-Full statement: the same without the last four hypotheses. -/
+Full statement: the same without the last three hypotheses. -/
 theorem run_spec_partial (b : Backend) (mds : List Md) (uses : List Use) (c0 gap : Nat) (ks : List Consumer)
     (hwt : ∀ md ∈ mds, md.WellTyped)
-    (hkind : ∀ md ∈ mds, md.mdType = b.mdType → KindDefault b md)
     (hcms : ∀ md ∈ mds, md.mdType = b.mdType → CmsIsCollection b md)
     (hclean : ∀ p ∈ resolveAll b mds uses, TypeClean p.1) (hnames : ∀ u ∈ uses, NameClean u.name) :
     RunSpec b mds uses (outcomeOf (runJob b mds uses c0 gap) ks) :=
-  runJob_spec b mds uses c0 gap ks hwt hkind hcms hclean hnames
+  runJob_spec b mds uses c0 gap ks hwt hcms hclean hnames
 
 /-- **C06.miniaod_tokens_distinct** — the corollary the property singles out: in every accepted
 miniAOD job (under the hypotheses above) the tokens of the retrieval blocks are pairwise
@@ -322,12 +347,11 @@ distinct, and the class declares / the constructor initialises exactly one line 
 use's token with the container's token type / with `consumes<C>(edm::InputTag("bank"))`. -/
 theorem miniaod_tokens_distinct (mds : List Md) (uses : List Use) (c0 gap : Nat) (ks : List Consumer) (out : JobOut)
     (hwt : ∀ md ∈ mds, md.WellTyped)
-    (hkind : ∀ md ∈ mds, md.mdType = Backend.mdType .cmsMiniaod → KindDefault .cmsMiniaod md)
     (hcms : ∀ md ∈ mds, md.mdType = Backend.mdType .cmsMiniaod → CmsIsCollection .cmsMiniaod md)
     (hclean : ∀ p ∈ resolveAll .cmsMiniaod mds uses, TypeClean p.1) (hnames : ∀ u ∈ uses, NameClean u.name)
     (h : runJob .cmsMiniaod mds uses c0 gap = .ok out) :
     TokenSpec .cmsMiniaod (resolveAll .cmsMiniaod mds uses) (out.observe ks) ∧ (out.frags.map (·.tok)).Nodup := by
-  have := run_spec_partial .cmsMiniaod mds uses c0 gap ks hwt hkind hcms hclean hnames
+  have := run_spec_partial .cmsMiniaod mds uses c0 gap ks hwt hcms hclean hnames
   rw [h] at this
   have ht : TokenSpec .cmsMiniaod (resolveAll .cmsMiniaod mds uses) (out.observe ks) := this.2.2.2.2.1
   refine ⟨ht, ?_⟩
@@ -335,15 +359,19 @@ theorem miniaod_tokens_distinct (mds : List Md) (uses : List Use) (c0 gap : Nat)
   simp only [JobOut.observe] at hn
   rwa [(observeFrags_map out.frags ks).2] at hn
 
-/-- **C06.run_spec_element_pointer_counterexample** — without `KindDefault` the job-level
-statement is false of the code: a CMS AOD collection declared with `element_pointer: True` is
-iterated with value access (`i.pt()`). -/
-theorem run_spec_element_pointer_counterexample :
-    ∃ (mds : List Md) (uses : List Use), ¬ RunSpec .cmsAod mds uses (outcomeOf (runJob .cmsAod mds uses 0 0) [⟨1, 1, 0⟩]) := by
-  refine ⟨[⟨Backend.mdType .cmsAod, [(t!"name", .str t!"Foo"), (t!"include_files", .strs [t!"Foo.h"]),
-    (t!"container_type", .str t!"reco::FooCollection"), (t!"element_type", .str t!"reco::Foo"),
-    (t!"contains_collection", .bool true), (t!"element_pointer", .bool true)]⟩],
-    [⟨t!"Foo", [.str t!"b"], 0⟩], by decide⟩
+/-- **C06.run_spec_element_pointer** — the former counterexample, now an instance of the
+theorem: a CMS AOD collection declared with `element_pointer: True` is iterated with pointer
+access (`i->pt()`), one declared without it with value access. -/
+theorem run_spec_element_pointer :
+    let md (ep : Bool) : Md := ⟨Backend.mdType .cmsAod, [(t!"name", .str t!"Foo"), (t!"include_files", .strs [t!"Foo.h"]),
+      (t!"container_type", .str t!"reco::FooCollection"), (t!"element_type", .str t!"reco::Foo"),
+      (t!"contains_collection", .bool true), (t!"element_pointer", .bool ep)]⟩
+    ∀ ep : Bool,
+      RunSpec .cmsAod [md ep] [⟨t!"Foo", [.str t!"b"], 0⟩] (outcomeOf (runJob .cmsAod [md ep] [⟨t!"Foo", [.str t!"b"], 0⟩] 0 0) [⟨1, 1, 0⟩]) ∧
+      ((runJob .cmsAod [md ep] [⟨t!"Foo", [.str t!"b"], 0⟩] 0 0).toOption.map (fun o => (o.observe [⟨1, 1, 0⟩]).frags.map (·.elemOps))) =
+        some [[if ep then t!"->" else t!"."]] := by
+  intro md ep
+  cases ep <;> decide
 
 /-! ## non-vacuity: the hypotheses are satisfiable on non-trivial inputs -/
 
@@ -354,7 +382,7 @@ example :
       (t!"container_type", .str t!"my::JetContainer"), (t!"element_type", .str t!"my::Jet"), (t!"contains_collection", .bool true),
       (t!"link_libraries", .strs [t!"myLib"])]⟩
     let uses : List Use := [⟨t!"Jets", [.str t!"a"], 0⟩, ⟨t!"EventInfo", [.str t!"e"], 2⟩, ⟨t!"Jets", [.str t!"a\"b"], 1⟩]
-    md.WellTyped ∧ KindDefault .atlas md ∧ CmsIsCollection .atlas md ∧ (∀ p ∈ resolveAll .atlas [md] uses, TypeClean p.1) ∧
+    md.WellTyped ∧ CmsIsCollection .atlas md ∧ (∀ p ∈ resolveAll .atlas [md] uses, TypeClean p.1) ∧
     (∀ u ∈ uses, NameClean u.name) ∧ Acceptable .atlas [md] uses ∧
     ((runJob .atlas [md] uses 7 3).toOption.map (fun o => (o.frags.length, o.includes, o.libs))) =
       some (3, [t!"my/JetContainer.h", t!"xAODEventInfo/EventInfo.h"], [t!"myLib", t!"xAODEventInfo"]) := by
